@@ -525,7 +525,12 @@ class C11(Check):
                     lo_ = (x_["call"]["t0"] if x_["call"] is not None else -1e9) - 1e-4
                     if not lo_ <= vt_ <= hi_:
                         continue
-                    d_ = abs(x_["x"]["t0"] - vt_)
+                    c__ = x_["call"]
+                    agree_ = 0
+                    if c__ is not None and c__["out"] in ("return", "raise"):
+                        rp__ = bytes.fromhex(rows[i_][2]) if rows[i_][2] is not None else None
+                        agree_ = 0 if (rows[i_][7] == ("emphasized" if c__["analyze"] else "implicit") and rp__ == x_["reply"]) else 1
+                    d_ = (agree_, round(abs(x_["x"]["t0"] - vt_), 5))
                     if best_d is None or d_ < best_d:
                         best_k, best_d = k_, d_
                 if best_k is None:
